@@ -189,7 +189,18 @@ class PendingIf(_PendingCompoundStmt[If]):
                 body_or_true = List(elts=[body], ctx=Load())
                 # `not not`: a condition that is false must not be tested
                 # a second time by the `or` that selects the other branch
-                test_once = UnaryOp(op=Not(), operand=UnaryOp(op=Not(), operand=test))
+                if isinstance(self.node.test, BoolOp):
+                    # `not (a or b)` would test the operand that decided `a or b`
+                    # once more; a conditional expression tests each operand once
+                    test_once = IfExp(
+                        test=test,
+                        body=Constant(value=True),
+                        orelse=Constant(value=False),
+                    )
+                else:
+                    test_once = UnaryOp(
+                        op=Not(), operand=UnaryOp(op=Not(), operand=test)
+                    )
                 semi_if = BoolOp(op=And(), values=[test_once, body_or_true])
                 if isinstance(orelse, BoolOp) and isinstance(orelse.op, Or):
                     # `a or (b or c)` is `a or b or c`: a long elif chain stays flat
